@@ -243,6 +243,18 @@ def mimoBinary (nr nt : Nat) (draws : List Nat) : Option (List (PTerm Label)) :=
   let F := binaryChannel nr nt draws
   mimoBpsk nt (matVec F (bpskSymbols nt (draws.drop (nr * nt)))) F
 
+/-- `create_channel(…, attenuation_matrix=A)`: `F = F * A` entry by entry -/
+def attenuate (F A : List (List Rat)) : List (List Rat) :=
+  (F.zip A).map (fun p => (p.1.zip p.2).map (fun q => q.1 * q.2))
+
+/-- `coordinated_multipoint(lattice, 'BPSK', F_distribution=('binary', 'real'), seed=…)` as a function of the attenuation
+    matrix of the lattice (`_lattice_to_attenuation_matrix`: 1 for a base station's own transmitters, the neighbour
+    attenuation for those of adjacent base stations, 0 elsewhere — computed by the caller) and of the recorded draws:
+    `mimo` with the attenuated binary channel -/
+def compBinary (nr nt : Nat) (A : List (List Rat)) (draws : List Nat) : Option (List (PTerm Label)) :=
+  let F := attenuate (binaryChannel nr nt draws) A
+  mimoBpsk nt (matVec F (bpskSymbols nt (draws.drop (nr * nt)))) F
+
 /-! ## `multiplication_circuit` with a one-bit argument (as repaired by patches/multiplication-circuit-one-bit.diff) -/
 
 /-- the AND gates of the one-bit branch: `and_gate(a_i, b_j, p_{i+j})` in `product(range(n), range(m))` order -/
